@@ -1,13 +1,34 @@
 (* C01 - single-extension answers are genuine extensions of the framework.
    Statements only; proofs are [exact].
-   PROVED so far (for every valid SAT oracle, every compact component of any size):
-     - ST: the per-component step of StableSemanticsSolver returns a stable extension of the
-       component, and reports none only when the component has none.
-   NOT YET PROVED in Coq (covered on every run by the trace replay + brute-force oracle only):
-     the gluing of components into an extension of the whole framework, the grounded fix-point
-     (GR), and the MaximalExtensionComputer loops behind PR / SST / STG / ID. *)
-From Crusta Require Import Spec.AF Sat.Cnf Sat.Prog Model.Encoders Model.Graph Model.Solvers.
+   PROVED (every valid SAT oracle, every threshold >= 1, every admissible encoder, every good view
+   of a framework of any size, every fuel):
+     - C01_single_extension: for EVERY solver type with a single-extension entry point (GR, ST,
+       PR, SST, STG, ID) a completed run of [run_query .. QSE ..] returns a duplicate-free list of
+       arguments of F that is an extension of the WHOLE framework F under the semantics; "no
+       extension" is answered only by the stable solver and only when F has no stable extension;
+       the run never panics.  This includes the split into connected components, the gluing, the
+       grounded fix-point and the MaximalExtensionComputer loops.
+     - C01_good_view_compact / C01_good_view_store: the premise [view_good] holds for the views the
+       solvers are actually run on.
+     - C01_stable_component_partial (kept): the per-component step of the stable solver.
+   NOT proved in Coq (by design): that the Rust code behaves like Model.Solvers (this is the
+   tie: trace replay on every run), and the translation of ids to labels.  Termination and fuel:
+   see C18.
+   Vocabulary of the whole-framework theorems (Proofs/TopBase.v, TopMax.v, SolverTop.v):
+     view_good g F   the view g (iteration orders of an AAFramework) presents the framework F;
+                     instances: view_of_af of any compact framework, view_of_fw of any store
+                     reachable from new_with_labels by any update history (C01_good_view_compact, C01_good_view_store);
+     supported s q   the trait implementation exists (all but CO-SE, CO-DS, PR-DC, for which the
+                     library delegates to another solver type and the model has no entry point);
+     enc_ok s e      the encoder may be used with the solver type (CO, SST: complete-based; STG:
+                     conflict-free based; PR, ID: complete- or admissible-based; GR, ST: any);
+     al_ok s q F al  nothing for SE queries and for GR / ST; otherwise the listed ids are arguments
+                     of F (the list may be empty and may contain repetitions).
+*)
+From Crusta Require Import Spec.AF Sat.Cnf Sat.Prog Model.Store Model.Encoders Model.Graph Model.Solvers.
 From Crusta Require Import Proofs.EncSpec Proofs.SolverBasics Proofs.SolverThms.
+From Crusta Require Import Proofs.TopBase Proofs.TopMax Proofs.SolverTop.
+From Crusta Require Proofs.GroundedProofs.
 
 Theorem C01_stable_component_partial : forall oracle thr, 1 <= thr -> valid_oracle oracle ->
   forall c n, compact_af (c_af c) n ->
@@ -18,4 +39,28 @@ Theorem C01_stable_component_partial : forall oracle thr, 1 <= thr -> valid_orac
               end).
 Proof. exact SolverThms.stable_component_se. Qed.
 
+Theorem C01_single_extension : forall oracle thr g F,
+  valid_oracle oracle -> 1 <= thr -> view_good g F ->
+  forall s e al fuel cert st0, supported s QSE -> enc_ok s e ->
+  match run_query oracle thr fuel s QSE cert e g al st0 with
+  | Done (OExt (Some L)) _ => ext s F L /\ NoDup L /\ incl L (args F)
+  | Done (OExt None) _ => s = ST /\ forall S, ~ ext s F S
+  | Done (OAcc _ _) _ => False
+  | Panic _ => False
+  | _ => True
+  end.
+Proof. exact SolverTop.top_single_extension. Qed.
+
+Theorem C01_good_view_compact : forall F n, compact_af F n -> view_good (view_of_af F) F.
+Proof. exact TopBase.view_good_compact. Qed.
+
+Theorem C01_good_view_store : forall L (leqb : L -> L -> bool),
+  (forall x y, leqb x y = true <-> x = y) ->
+  forall f : fw L, GroundedProofs.reachable L leqb f ->
+  view_good (view_of_fw f) (GroundedProofs.af_of L f).
+Proof. exact TopBase.view_good_store. Qed.
+
 Print Assumptions C01_stable_component_partial.
+Print Assumptions C01_single_extension.
+Print Assumptions C01_good_view_compact.
+Print Assumptions C01_good_view_store.
